@@ -268,7 +268,11 @@ class NcpEzsp:
     def cmd_setConfigurationValue(self, a):
         cid = int(a["configId"])
         if cid in self.config_reject:
-            return [self.t.EzspStatus.ERROR_INVALID_VALUE]
+            # the refusal's status is the firmware's choice (invalid value, invalid id, out of memory, ...)
+            name = getattr(self, "reject_status", None) or "ERROR_INVALID_VALUE"
+            if self.version >= 14 and name == "ERROR_OUT_OF_MEMORY":
+                return [self.t.sl_Status.NO_MORE_RESOURCE]
+            return [self.t.EzspStatus[name]]
         self.config[cid] = int(a["value"])
         return [self._ok()]
 
